@@ -377,6 +377,27 @@ def use_filter(rep):
             rep.ob("O7.3", "PROV", fi, True, "use_filter block", "no identifier drawn from the child graph is used to index the parent graph", node=blk)
         for n in bad[:3]:
             rep.ob("O7.3", "PROV", fi, False, n, "node ids of the child graph are unrelated to the parent's: indexing the parent with them makes the filter change verdicts", node=n)
+        # labels are read with the matcher's defaults on BOTH sides (generic_node_match(names, defaults, ..) compares get(name, default))
+        label_vars = {}   # loop variable over node_label_names -> paired default variable (or None)
+        for n in ast.walk(blk):
+            gens = []
+            if isinstance(n, ast.For):
+                gens.append((n.target, n.iter))
+            if isinstance(n, (ast.GeneratorExp, ast.ListComp, ast.SetComp)):
+                gens += [(g.target, g.iter) for g in n.generators]
+            for tg, it in gens:
+                if pmatch("zip(node_label_names, node_label_default)", it) is not None and isinstance(tg, ast.Tuple) and len(tg.elts) == 2:
+                    label_vars[norm(tg.elts[0])] = norm(tg.elts[1])
+                elif norm(it) == "node_label_names" and isinstance(tg, ast.Name):
+                    label_vars[tg.id] = None
+        gets = [c for c in ast.walk(blk) if isinstance(c, ast.Call) and isinstance(c.func, ast.Attribute) and c.func.attr == "get" and c.args
+                and isinstance(c.args[0], ast.Name) and c.args[0].id in label_vars]
+        bad_gets = [c for c in gets if not (len(c.args) == 2 and label_vars[c.args[0].id] is not None and norm(c.args[1]) == label_vars[c.args[0].id])]
+        if gets:
+            rep.ob("O7.3", "FILTER", fi, not bad_gets, bad_gets[0] if bad_gets else f"{len(gets)} label reads with (name, default)",
+                   "the pre-filter reads node labels with the same defaults the matcher applies, on the host side and on the pattern side: a label read without its "
+                   "default makes an un-annotated host atom look different from a pattern atom that spells the default out, and the filter rejects a contained pattern",
+                   node=bad_gets[0] if bad_gets else blk)
         # every rejection inside the block is a recognised necessary condition
         for r in [n for n in walk_local(blk) if isinstance(n, ast.Return)]:
             gs = guards_of(pm, r, blk)
@@ -403,14 +424,14 @@ def use_filter(rep):
                 if size_like:
                     kind = "SIZE"
                     ok = not any(vals)
-                elif isinstance(t, ast.UnaryOp) and isinstance(t.op, ast.Not) and isinstance(t.operand, ast.Name) and sense \
-                        and any(isinstance(n_, ast.Assign) and norm(n_.targets[0]) == t.operand.id and is_const(n_.value, True) for n_ in walk_local(blk)) \
-                        and any(isinstance(n_, ast.Assign) and norm(n_.targets[0]) == t.operand.id and is_const(n_.value, False) for n_ in walk_local(blk)):
+                elif isinstance(t, ast.Name) and not sense \
+                        and any(isinstance(n_, ast.Assign) and norm(n_.targets[0]) == t.id and is_const(n_.value, True) for n_ in walk_local(blk)) \
+                        and any(isinstance(n_, ast.Assign) and norm(n_.targets[0]) == t.id and is_const(n_.value, False) for n_ in walk_local(blk)):
                     kind, ok = "LABEL-AVAILABLE", True
-                elif isinstance(t, ast.Compare) and isinstance(t.ops[0], ast.NotIn) and sense:
+                elif isinstance(t, ast.Compare) and ((isinstance(t.ops[0], ast.NotIn) and sense) or (isinstance(t.ops[0], ast.In) and not sense)):
                     src = origin(local_defs(fi.node), t.comparators[0])
                     kind = "LABEL-MULTISET"
-                    ok = True if (isinstance(src, ast.ListComp) and "parent_graph.edges" in norm(src)) else None
+                    ok = True if (isinstance(src, (ast.ListComp, ast.SetComp)) and ("parent_graph.edges" in norm(src) or "parent_graph.nodes" in norm(src))) else None
                 elif bad:
                     kind, ok = "BY-CHILD-ID", False
             rep.ob("O7.3", "FILTER", fi, ok, f"return False [{kind}] under `{norm(inner[0]) if inner else ''}`",
